@@ -8,15 +8,16 @@ import (
 )
 
 // Value is one of:
-//   *Term      integers (bit-vectors) and bools
-//   *StrVal    strings (concrete or symbolic interned id)
-//   *Ptr       pointers (Cell == nil => nil pointer)
-//   *Agg       struct / array / tuple values (immutable)
-//   *SliceVal  slices
-//   *MapObj    maps (nil pointer => nil map)
-//   *ChanObj   channels (nil pointer => nil channel)
-//   *IfaceVal  interfaces (Typ == nil => nil interface)
-//   *FuncVal   function values / closures (Fn == nil => nil func)
+//
+//	*Term      integers (bit-vectors) and bools
+//	*StrVal    strings (concrete or symbolic interned id)
+//	*Ptr       pointers (Cell == nil => nil pointer)
+//	*Agg       struct / array / tuple values (immutable)
+//	*SliceVal  slices
+//	*MapObj    maps (nil pointer => nil map)
+//	*ChanObj   channels (nil pointer => nil channel)
+//	*IfaceVal  interfaces (Typ == nil => nil interface)
+//	*FuncVal   function values / closures (Fn == nil => nil func)
 type Value interface{}
 
 type StrVal struct {
